@@ -171,9 +171,17 @@ def norm_res(r):
     return {"k": r["k"], "v": r["v"]}
 
 
+OBSERVABLE = ("stack",)      # what the property talks about besides lookup results: the innermost active with-block
+
+
 def replay_one(beh):
-    """returns None if conformant, else dict describing first divergence"""
+    """returns None if conformant, else dict describing the first divergence.  Lookup results / raised classes and the
+    with-stack are what C11 is about: a divergence there is a violation ("result", "state").  The rest of the registry
+    state (memo, seen modules, lazily run factories, initialised backends) is internal: a divergence there alone is
+    reported as "drift" (the specification no longer mirrors the implementation's bookkeeping) and the replay goes on
+    comparing results."""
     rp = Replayer(beh["cfg"])
+    drift = None
     try:
         for i, s in enumerate(beh["hist"]):
             got = rp.step(s)
@@ -184,8 +192,11 @@ def replay_one(beh):
             obs["lazy"] = {m: v for m, v in obs["lazy"].items() if v}
             ex = norm_post(s["post"])
             if obs != ex:
-                return {"step": i, "action": s["a"], "x": s["x"], "tt": s["tt"], "kind": "state", "expected": ex, "observed": obs}
-        return None
+                if any(obs.get(k) != ex.get(k) for k in OBSERVABLE):
+                    return {"step": i, "action": s["a"], "x": s["x"], "tt": s["tt"], "kind": "state", "expected": {k: ex.get(k) for k in OBSERVABLE}, "observed": {k: obs.get(k) for k in OBSERVABLE}}
+                if drift is None:
+                    drift = {"step": i, "action": s["a"], "x": s["x"], "tt": s["tt"], "kind": "drift", "expected": ex, "observed": obs}
+        return drift
     finally:
         rp.close()
 
